@@ -97,6 +97,24 @@ pub fn run(ctx: &Ctx) -> Report {
             }
         }
     }
+    if q {
+        // larger pools under the extreme orders only (all orders are covered for w=2 above and in the thorough tier)
+        for d in drivers() {
+            for &w in &[16i64, 64] {
+                for &n in &[700usize] {
+                    let wstr = w.to_string();
+                    let s = Arc::new(Scenario::new(&format!("fds-{}-w{}-n{}", d, w, n), tree(n), &["-r", "--driver", d, "-w", &wstr, "src", "dst"]));
+                    let os = orders(d, w);
+                    let producer_first: Vec<String> = if d == "parblock" { vec!["0.1.2".into(), "0.1.1".into(), "0.1".into(), "0".into(), "0.1.1.*".into()] } else { os[0].clone() };
+                    for o in [producer_first, os[0].clone(), os.last().unwrap().clone()] {
+                        let mut sp = RunSpec::base(Policy::Prio(o));
+                        sp.step_limit = 5_000_000;
+                        jobs.push((s.clone(), sp, 0usize));
+                    }
+                }
+            }
+        }
+    }
     let njobs = jobs.len();
     let st = explore(&ctx.pool, jobs, j);
     // growth with n under the same (driver, w, order)
@@ -136,7 +154,7 @@ pub fn run(ctx: &Ctx) -> Report {
     // under the descriptor limit
     let mut jobs = vec![];
     for d in drivers() {
-        for (n, w) in if q { vec![(600usize, 2i64)] } else { vec![(600, 2), (5000, 4), (5000, 64)] } {
+        for (n, w) in if q { vec![(600usize, 2i64), (700, 16)] } else { vec![(600, 2), (700, 16), (5000, 4), (5000, 64)] } {
             let wstr = w.to_string();
             let mut s = Scenario::new(&format!("fds-limit1024-{}-w{}-n{}", d, w, n), tree(n), &["-r", "--driver", d, "-w", &wstr, "src", "dst"]);
             s.nofile = Some(1024);
